@@ -119,7 +119,7 @@ pub open spec fn some_usable_cover(nsecs: Seq<(&Name, &NSEC)>, t: Name, apex: Op
 //%before "while name.num_labels() > wildcard_base_name.num_labels()"
     let ghost mut vp_k: nat = 1;
     proof { reveal_with_fuel(ancestor, 2); assert(ancestor(*query_name, 1) == parent(*query_name)); }
-//%after "while name.num_labels() > wildcard_base_name.num_labels()"
+//%before "{ let Ok(wildcard) = name.prepend_label"
         invariant
             vp_k >= 1, name == ancestor(*query_name, vp_k),
             // every wildcard at an ancestor passed so far is covered
